@@ -147,6 +147,18 @@ CLAIMED = {
          'entirely in the padding (0/0) are unspecified and compared as the code gives them. dtype promotion, precision, axis_name not covered. No axioms.',
     technique='Coq proof (index arithmetic of padding / strides, non-interference, rational statistics) + per-run correspondence by vm_compute + independent direct-sum reference on the real code',
     ref='DESIGN.md section 5, C12'),
+  'C13': dict(
+    text='PARTIAL. A Gallina model of the RNN wrapper (flip_sequences for reverse, the scan over all steps, _select_last_carry at seq_len - 1, keep_order) and of the decode-cache bookkeeping of '
+         'attention, both parametric in the cell / attention function. Proved for every cell, carry, sequence and seq_len in [1, T]: the valid outputs and the returned carry are those of the '
+         'Python loop over the valid inputs (reversed within the valid length for reverse); padded inputs are inert; keep_order only flips the valid outputs back; stepwise decoding through the '
+         'cache equals whole-sequence attention under the causal mask for every attention function and cache size. Tied to /repo per run: an integer cell under nn.RNN / nnx.RNN / Bidirectional '
+         '(batch shapes (), (b,), (b1,b2), time_major, initial carries) compared exactly with the model; the real cells against numpy recurrences and the manual loop with padded inputs '
+         'perturbed; attention weights against a numpy softmax, masked weights exactly zero, ignored keys / values perturbed; decode vs causal in Linen and NNX on the same parameters.',
+    note='Trusted: Coq kernel, vm_compute, harness (numpy recurrences and softmax), jaxcompat, float64. NOT proved: softmax / zero weight of masked positions (exp underflow of finfo.min), the cell '
+         'equations, batching and time_major arithmetic, Linen = NNX: oracle-only. F12 (final carry for more than one batch dimension) fixed. ConvLSTMCell, dropout inside attention, '
+         'normalize_qk not covered. No axioms.',
+    technique='Coq proof (list lemmas over the scan; cache invariant by induction) + per-run model-vs-implementation correspondence by vm_compute + paired-input and reference oracles',
+    ref='DESIGN.md section 5, C13'),
   'C14': dict(
     text='Theorems about hand-written Gallina models of the Linen filter algebra (one fuelled function mirroring union/subtract/intersect_filters, '
          'in_filter, is_filter_empty, group_collections) and of the NNX filter language with the first-match split loop: soundness and totality of the three '
